@@ -77,3 +77,19 @@ Theorem C03_crop_and_pad_keypoint : forall kp cp pp r c s rr rc rs keep,
                else cp_shift kp cp pp).
 Proof. exact crop_and_pad_keypoint_spec. Qed.
 Print Assumptions C03_crop_and_pad_keypoint.
+
+(* RandomSizedCrop: the keypoint is shifted by the window the image path cuts and zoomed by promised/cropped on
+   each axis; its scale is multiplied by the largest of the three zooms (keypoint_scale's convention) *)
+From DV.proofs Require Import SizedCrop.
+From DV.gen Require Import Gen_cls_crops_dicom.
+Theorem C03_RandomSizedCrop_keypoint : forall sd sh sw x y z a sc hs ws ch cw cd ip c r s,
+  (0 < ch)%Z -> (0 < cw)%Z -> (0 < cd)%Z ->
+  let '(x1, y1, z1, x2, y2, z2) := get_random_crop_coords r c s ch cw cd hs ws 0 in
+  exists x' y' z' sc',
+    RandomSizedCrop_apply_to_keypoint sd sh sw (x, y, z, a, sc) hs ws ch cw cd ip c r s = Ok (x', y', z', a, sc') /\
+    x' == (x - inject_Z x1) * (inject_Z sw / inject_Z cw) /\
+    y' == (y - inject_Z y1) * (inject_Z sh / inject_Z ch) /\
+    z' == (z - inject_Z z1) * (inject_Z sd / inject_Z cd) /\
+    sc' == sc * Qmax (Qmax (inject_Z sw / inject_Z cw) (inject_Z sh / inject_Z ch)) (inject_Z sd / inject_Z cd).
+Proof. exact RandomSizedCrop_keypoint. Qed.
+Print Assumptions C03_RandomSizedCrop_keypoint.
